@@ -409,10 +409,18 @@ def r14_stash(ctx, rule='R14s'):
                 n += 1
                 cls = ctx.repo.enclosing_class(h)
                 raised = False
+                aliases = set()
                 wheref = None
                 for meth in cls.methods.values():
+                    # a local that holds the stash (failure = self.exc), bound once in the method
+                    binds = {}
+                    for a_ in own_nodes(meth.node):
+                        if isinstance(a_, ast.Assign) and len(a_.targets) == 1 and isinstance(a_.targets[0], ast.Name):
+                            binds.setdefault(a_.targets[0].id, []).append(a_.value)
+                    alias = set(k_ for k_, v_ in binds.items() if len(v_) == 1 and pseudo(v_[0]) == attr)
                     for r in own_nodes(meth.node):
-                        if isinstance(r, ast.Raise) and r.exc is not None and pseudo(r.exc) == attr:
+                        if isinstance(r, ast.Raise) and r.exc is not None and (pseudo(r.exc) == attr or pseudo(r.exc) in alias):
+                            aliases = alias
                             # must come after a call that can run the generator (infer) on every path reaching it
                             raised = True
                             wheref = meth
@@ -424,17 +432,25 @@ def r14_stash(ctx, rule='R14s'):
                     from rules.order import check_order, report_order
                     preds = {'INFER': lambda x: isinstance(x, ast.Call) and isinstance(x.func, ast.Attribute)
                              and x.func.attr == 'infer',
-                             'RERAISE': lambda x: isinstance(x, ast.Raise) and x.exc is not None and pseudo(x.exc) == attr,
+                             'RERAISE': lambda x: isinstance(x, ast.Raise) and x.exc is not None and
+                             (pseudo(x.exc) == attr or pseudo(x.exc) in aliases),
+                             'READ': lambda x: isinstance(x, ast.Assign) and len(x.targets) == 1 and isinstance(x.targets[0], ast.Name)
+                             and x.targets[0].id in aliases and pseudo(x.value) == attr,
                              'ADD': lambda x: isinstance(x, ast.Call) and isinstance(x.func, ast.Attribute)
                              and x.func.attr in ('append', 'extend') and 'resources' in u(x.func.value)}
-                    pes, problems = check_order(ctx, rule, wheref, preds, before=[('INFER', 'RERAISE')])
+                    pes, problems = check_order(ctx, rule, wheref, preds, before=[('INFER', 'RERAISE'), ('INFER', 'READ')])
                     # on every path that adds the descriptor, the stash must have been tested before
                     for p, evs in pes:
                         names = [e.name for e in evs]
                         if 'ADD' in names:
-                            tested = any(it.kind == 'guard' and attr in names_in(it.node) for it in p.items)
+                            tested = any(it.kind == 'guard' and ({attr} | aliases) & names_in(it.node) for it in p.items)
                             if not tested:
                                 problems[('stash tested before the descriptor is added', wheref.node)] = p
+                            # the stash holds an exception object or None: an exception class may define __len__ / __bool__
+                            # (an aggregate error raised with an empty list), so the test is against None, never for truth
+                            for it in p.items:
+                                if it.kind == 'guard' and (pseudo(it.node) == attr or pseudo(it.node) in aliases):
+                                    problems[('stash compared with None, not tested for truth', it.node)] = p
                     report_order(ctx, rule, wheref, problems, pes, 'infer() before `raise %s`' % attr,
                                  'the stashed source error is not re-raised after inference')
     run.floor(rule, n, 1, 'stashed exceptions')
